@@ -314,6 +314,10 @@ pub fn run(prop: &'static str, tier: &str) -> (Acc, String) {
         cases.extend(wide_cases());
     }
     let cfg = HxCfg::new(prop, "graphgen", 2, 8, &[], &[0, 1], &[]);
+    let mut sweep_acc = Acc::default();
+    if prop == "C19" {
+        sweep_acc = capacity_sweep(quick);
+    }
     let acc = super::par_cases(cases.len(), |i, acc| {
         let c = &cases[i];
         // all drain orders for the small graphs; the wide ones have up to 13! orders: default order + the enumeration cap
@@ -322,12 +326,14 @@ pub fn run(prop: &'static str, tier: &str) -> (Acc, String) {
             acc.sample(json!({"graph": crate::model::hist_text(&c.ops), "what": c.what}));
         }
     });
+    let mut acc = acc;
+    acc.merge(sweep_acc);
     let rule = format!(
         "GRAPHGEN: every digraph on 1..={nmax} vertices in which each vertex has, per label of {{α0, x}}, no edge or an edge to one of the other vertices ({} graphs incl. all cyclic shapes and shared targets), built through add/bind in up to three insertion orders (ascending, reversed, and - from 4 vertices on - every other edge first, so that groups form separately before an edge links them) on dense and on gapped ids{}{}",
         small,
         match prop {
             "C13" => "; for every start vertex: slice() and slice_some() with EVERY subset of the edge set as predicate, under EVERY drain order of slice's work-list (enumerated through the verif choice-point hook); plus wide shapes on Sodg<16> (chains, cycles, stars, bipartite graphs on 12-14 vertices, fans of 1..=16 labelled edges onto 1, 2 or 13 targets)",
-            "C19" => "; each graph is built three times in fresh objects (fresh hash seeds) and once as Sodg<16> with capacity 256: every public observable, incl. every slice with the grouping of its vertices as Debug shows it, must be identical",
+            "C19" => "; PLUS a dense capacity sweep: small graphs on ids spread 2^k apart (0, 3, 3+2^k, 4+2^k for 2^k = 8..512) traced under EVERY capacity from the minimum that fits up to the minimum + 2^k + 8 (and 2049): all traces equal; each graph is built three times in fresh objects (fresh hash seeds) and once as Sodg<16> with capacity 256: every public observable, incl. every slice with the grouping of its vertices as Debug shows it, must be identical",
             "C18" => "; with every placement of {no data, 1 byte, 9 bytes (heap), empty datum, 17 bytes} (n <= 3); to_xml()/to_dot() parsed back and compared with the graph, and all graphs with equal content must give equal text",
             _ => "; inspect(v) for every vertex (parsed back into (source,label,target) triples: the edges of all reachable vertices, each exactly once), Debug, Display, v_print(v); plus wide shapes on Sodg<16>",
         },
@@ -336,8 +342,64 @@ pub fn run(prop: &'static str, tier: &str) -> (Acc, String) {
     (acc, rule)
 }
 
+/// C19: graphs on ids that lie a power of two apart, traced under every capacity of a dense range.
+pub fn capacity_sweep(quick: bool) -> Acc {
+    let mut jobs: Vec<(Vec<Op>, usize, Vec<usize>)> = vec![];
+    for k in 3..=9u32 {
+        let d = 1usize << k;
+        let ids = [0usize, 3, 3 + d, 4 + d];
+        let min = 5 + d;
+        // three shapes: a fan from 0, a chain, a cycle through all four; data on the far ones
+        let shapes: Vec<Vec<(usize, usize, u8)>> = vec![
+            vec![(0, 1, 0), (0, 2, 1), (2, 3, 0)],
+            vec![(0, 1, 0), (1, 2, 0), (2, 3, 0)],
+            vec![(0, 2, 0), (2, 1, 0), (1, 3, 0), (3, 0, 1)],
+        ];
+        for sh in shapes {
+            let mut ops: Vec<Op> = ids.iter().map(|v| Op::Add(*v)).collect();
+            for (a, b, l) in &sh {
+                ops.push(Op::Bind(ids[*a], ids[*b], *l));
+            }
+            ops.push(Op::Put(ids[3], 1));
+            ops.push(Op::Put(ids[1], 0));
+            ops.push(Op::NextId);
+            let step = if quick && d >= 128 { 3 } else { 1 };
+            let mut caps: Vec<usize> = (min..=min + d + 8).step_by(step).collect();
+            caps.extend([min + d, 2 * d + 5, 2049]);
+            caps.sort_unstable();
+            caps.dedup();
+            jobs.push((ops, min, caps));
+        }
+    }
+    super::par_cases(jobs.len(), |i, acc| {
+        let (ops, min, caps) = &jobs[i];
+        let base = probes::trace_of::<2>(*min, ops);
+        for cap in caps {
+            acc.evaluations += 1;
+            let t = if cap % 2 == 0 { probes::trace_of::<2>(*cap, ops) } else { probes::trace_of::<16>(*cap, ops) };
+            if t != base {
+                let c = GraphCase { n: 2, cap: *cap, ops: ops.clone(), what: format!("capacity sweep: capacity {cap} against {min}") };
+                acc.fail("C19", "graph:capacity-changes-answer", format!("the same calls answer differently under capacity {cap} and capacity {min}: {}", crate::model::hist_text(ops)), json!({"engine": "graphgen", "property": "C19", "case": c, "kind": "capacity-changes-answer", "base_capacity": min}));
+                break;
+            }
+        }
+        acc.nontrivial += 1;
+        acc.bump("capacity_sweep_graphs", 1);
+        if i % 7 == 0 {
+            acc.sample(json!({"capacity_sweep": crate::model::hist_text(ops), "capacities": format!("{}..={} and more", caps[0], caps[caps.len() - 1])}));
+        }
+    })
+}
+
 pub fn replay(v: &Value) -> i32 {
     let prop = leak(v["property"].as_str().unwrap_or("C13"));
+    if v["kind"].as_str() == Some("capacity-changes-answer") {
+        let Ok(c) = serde_json::from_value::<GraphCase>(v["case"].clone()) else { return 2 };
+        let min = v["base_capacity"].as_u64().unwrap_or(8) as usize;
+        let (a, b) = (probes::trace_of::<2>(min, &c.ops), probes::trace_of::<2>(c.cap, &c.ops));
+        println!("capacity {min} vs capacity {}: {}", c.cap, if a == b { "same answers" } else { "different answers" });
+        return i32::from(a != b);
+    }
     let Ok(c) = serde_json::from_value::<GraphCase>(v["case"].clone()) else { return 2 };
     let cfg = HxCfg::new(prop, "graphgen", 2, 8, &[], &[0, 1], &[]);
     let mut acc = Acc::default();
